@@ -434,6 +434,10 @@ func (r *Run) Finish(floor int) {
 	if len(r.inconclusive) > 0 {
 		cov["inconclusive"] = r.inconclusive
 	}
+	if sp := os.Getenv("VERIF_SANITIZER_PASSES"); sp != "" {
+		// set by run.sh: outcome of additional passes of the same check binary built with another sanitizer
+		cov["additional_sanitizer_passes"] = sp
+	}
 	if nviol > 0 {
 		var vs []string
 		for s := range sigs {
@@ -458,7 +462,7 @@ func (r *Run) Finish(floor int) {
 	inconc := append([]string(nil), r.inconclusive...)
 	r.mu.Unlock()
 
-	if r.ReplayFile == "" {
+	if r.ReplayFile == "" && os.Getenv("VERIF_NO_EVIDENCE") == "" {
 		dir := filepath.Join(Root, "evidence")
 		_ = os.MkdirAll(dir, 0o755)
 		b, err := json.MarshalIndent(ev, "", " ")
